@@ -14,6 +14,12 @@ def gen_cases(seed, tier):
             for kind in "tr":
                 cases.append(dict(id="h%d" % len(cases), comp=comp, dedup=0,
                                   ops=[(h, "mem", "g:5000:%d:%s" % (len(cases) + 1, kind))]))
+    # the deduplicating adder hashes contents of 4 MiB and more through another path: repeats around that size
+    for big in (4194303, 4194304, 4194305):
+        A, B, BIG = "g:300:7:t", "g:10:8:r", "g:%d:9:t" % big
+        cases.append(dict(id="h%d" % len(cases), comp="zstd:1", dedup=1,
+                          ops=[("y", "mem", A), ("n", "mem", B), ("n", "mem", A), ("y", "mem", BIG), ("y", "mem", A),
+                               ("y", "mem", B), ("n", "mem", BIG), ("y", "file", BIG), ("d", "mem", B)]))
     n = 50 if tier == "quick" else 500
     for i in range(n):
         comp = comps[i % 4]
